@@ -1118,6 +1118,154 @@ fn gen_stmt(rng: &mut Rng) -> (String, Vec<(usize, usize)>) {
     (o, sp)
 }
 
+/// conditions that fold to a constant, of both truth values
+const CONDS: [&str; 16] = [
+    "true", "false", "0", "1", "none", "\"\"", "\"x\"", "[]", "[0]", "0.0", "{}", "true", "false", "false", "true", "()",
+];
+const ITERS: [&str; 8] = ["[]", "[1]", "[1, 2]", "()", "\"\"", "\"ab\"", "{}", "{\"a\": 1}"];
+
+fn gen_cond(rng: &mut Rng) -> G {
+    match rng.below(10) {
+        0..=4 => G::Lit(rng.pick(&CONDS).to_string()),
+        5 => G::Not(Box::new(G::Lit(rng.pick(&CONDS).to_string()))),
+        6 => G::Bin(*rng.pick(&["==", "!=", "<", "in", "and", "or"]), Box::new(G::Lit(rng.pick(&EQUIV).to_string())), Box::new(G::Lit(rng.pick(&EQUIV).to_string()))),
+        7 => G::Chain(Box::new(G::Lit(rng.pick(&SMALLIDX).to_string())), vec![("<", G::Lit(rng.pick(&SMALLIDX).to_string())), ("<=", G::Lit(rng.pick(&SMALLIDX).to_string()))]),
+        8 => G::Test("defined", rng.chance(1, 2), Box::new(G::Var("u")), vec![]),
+        _ => gen(rng, 2),
+    }
+}
+
+/// A statement body with a COMPILE-TIME effect (block table, macro/variable definitions that later
+/// statements or other templates consume, extends/import/include); `names` hands out each block name
+/// at most once per template.
+fn emit_effect(rng: &mut Rng, o: &mut String, sp: &mut Vec<(usize, usize)>, names: &mut Vec<&'static str>, depth: u32) {
+    match rng.below(12) {
+        0..=4 if !names.is_empty() => {
+            let n = names.remove(rng.below(names.len() as u64) as usize);
+            o.push_str(&format!("{{% block {} %}}{}[", n, n.to_uppercase()));
+            if rng.chance(1, 3) {
+                o.push_str("{{ ");
+                emit(&gen_lit(rng), o, sp);
+                o.push_str(" }}");
+            }
+            if rng.chance(1, 5) {
+                o.push_str("{{ super() }}");
+            }
+            o.push_str("]{% endblock %}");
+        }
+        5 | 6 => {
+            o.push_str("{% macro m(a=");
+            emit(&gen_lit(rng), o, sp);
+            o.push_str(") %}M<{{ a }}>{% endmacro %}");
+        }
+        7 | 8 => {
+            o.push_str("{% set g = ");
+            emit(&gen(rng, 1), o, sp);
+            o.push_str(" %}");
+        }
+        9 => {
+            o.push_str("{% extends ");
+            emit(&G::Lit("\"base.txt\"".into()), o, sp);
+            o.push_str(" %}");
+        }
+        10 => {
+            o.push_str("{% import ");
+            emit(&G::Lit("\"mac.txt\"".into()), o, sp);
+            o.push_str(" as q %}");
+        }
+        _ if depth > 0 => emit_wrapped(rng, o, sp, names, depth - 1),
+        _ => o.push_str("txt"),
+    }
+}
+
+/// an effect inside a branch of if/elif/else, for (also over empty iterables), with, filter, autoescape
+fn emit_wrapped(rng: &mut Rng, o: &mut String, sp: &mut Vec<(usize, usize)>, names: &mut Vec<&'static str>, depth: u32) {
+    match rng.below(10) {
+        0..=3 => {
+            o.push_str("{% if ");
+            emit(&gen_cond(rng), o, sp);
+            o.push_str(" %}");
+            emit_effect(rng, o, sp, names, depth);
+            if rng.chance(1, 3) {
+                o.push_str("{% elif ");
+                emit(&gen_cond(rng), o, sp);
+                o.push_str(" %}");
+                emit_effect(rng, o, sp, names, depth);
+            }
+            if rng.chance(2, 3) {
+                o.push_str("{% else %}");
+                emit_effect(rng, o, sp, names, depth);
+            }
+            o.push_str("{% endif %}");
+        }
+        4 | 5 => {
+            o.push_str("{% for x in ");
+            emit(&G::Lit(rng.pick(&ITERS).to_string()), o, sp);
+            o.push_str(" %}");
+            emit_effect(rng, o, sp, names, depth);
+            if rng.chance(1, 2) {
+                o.push_str("{% else %}");
+                emit_effect(rng, o, sp, names, depth);
+            }
+            o.push_str("{% endfor %}");
+        }
+        6 => {
+            o.push_str("{% with a = ");
+            emit(&gen_lit(rng), o, sp);
+            o.push_str(" %}");
+            emit_effect(rng, o, sp, names, depth);
+            o.push_str("{% endwith %}");
+        }
+        7 => {
+            o.push_str("{% filter upper %}");
+            emit_effect(rng, o, sp, names, depth);
+            o.push_str("{% endfilter %}");
+        }
+        8 => {
+            o.push_str("{% autoescape ");
+            emit(&G::Lit(rng.pick(&ESCAPES).to_string()), o, sp);
+            o.push_str(" %}");
+            emit_effect(rng, o, sp, names, depth);
+            o.push_str("{% endautoescape %}");
+        }
+        _ => {
+            o.push_str("{{ ");
+            emit(&G::If(Box::new(gen_lit(rng)), Box::new(gen_cond(rng)), Some(Box::new(gen_lit(rng)))), o, sp);
+            o.push_str(" }}");
+            emit_effect(rng, o, sp, names, depth);
+        }
+    }
+}
+
+/// a template made of wrapped effects followed by every in-template consumer
+fn gen_effect_stmt(rng: &mut Rng) -> (String, Vec<(usize, usize)>) {
+    let mut o = String::new();
+    let mut sp = vec![];
+    let mut names = BLOCK_NAMES.to_vec();
+    if rng.chance(1, 3) {
+        o.push_str("{% extends ");
+        emit(&G::Lit("\"base.txt\"".into()), &mut o, &mut sp);
+        o.push_str(" %}");
+    }
+    for _ in 0..1 + rng.below(3) {
+        emit_wrapped(rng, &mut o, &mut sp, &mut names, 2);
+    }
+    // consumers inside the template itself
+    if rng.chance(1, 2) {
+        o.push_str(&format!("|{{{{ self.{}() }}}}", rng.pick(&BLOCK_NAMES)));
+    }
+    if rng.chance(1, 3) {
+        o.push_str("|{{ m() }}");
+    }
+    if rng.chance(1, 3) {
+        o.push_str("|{{ g }}");
+    }
+    if rng.chance(1, 6) {
+        o.push_str("|{{ q.f(1) }}");
+    }
+    (o, sp)
+}
+
 /// hand-written statement seeds (backticks delimit the literal leaves)
 const STMT_SEEDS: &[&str] = &[
     "{% if `0` and `1` %}yes{% else %}no{% endif %}", "{% if `3` < `2` < `5` %}yes{% else %}no{% endif %}",
@@ -1137,6 +1285,22 @@ const STMT_SEEDS: &[&str] = &[
     "{{ [`3`, `1`, `2`]|sort }}", "{{ `[3, 1, 2]`|sort|join(`\"-\"`) }}", "{{ [`1`, `1.0`, `true`]|unique|list }}", "{% if u %}a{% else %}b{% endif %}{{ `1` if u }}",
     "{{ `\"a\"` if `0` }}|{{ (`\"a\"` if `0`) is defined }}", "{% set x %}{{ `1.5` }}{% endset %}{{ x }}", "{% filter upper %}{{ `\"abc\"` ~ `1` }}{% endfilter %}",
     "{% macro wrap() %}<{{ caller() }}>{% endmacro %}{% call(z=`5`) wrap() %}{{ z }}{% endcall %}",
+    "{% extends `\"base.txt\"` %}{% if `false` %}{% block b %}child{% endblock %}{% endif %}",
+    "{% extends `\"base.txt\"` %}{% if `true` %}{% block b %}child{% endblock %}{% endif %}",
+    "{% if `true` %}A{% else %}{% block b %}B{% endblock %}{% endif %}|{{ self.b() }}",
+    "{% if `false` %}A{% else %}{% block b %}B{% endblock %}{% endif %}|{{ self.b() }}",
+    "{% if `0` %}x{% elif `none` %}{% block c %}C{% endblock %}{% else %}{% block b %}B{% endblock %}{% endif %}|{{ self.c() }}",
+    "{% for x in `[]` %}{% block b %}B{{ x }}{% endblock %}{% endfor %}|{{ self.b() }}",
+    "{% for x in `[]` %}y{% else %}{% block b %}B{% endblock %}{% endfor %}",
+    "{% if `false` %}{% macro m() %}M{% endmacro %}{% endif %}{{ m() }}", "{% if `true` %}{% macro m() %}M{% endmacro %}{% endif %}{{ m() }}",
+    "{% if `false` %}{% set g = `1` %}{% endif %}{{ g }}", "{% if `1` == `1` %}{% set g = `1` %}{% endif %}{{ g }}",
+    "{% if `false` %}{% extends `\"base.txt\"` %}{% endif %}x{% block b %}B{% endblock %}",
+    "{% if `true` %}{% extends `\"base.txt\"` %}{% endif %}x{% block b %}B{% endblock %}",
+    "{% if `not true` %}{% import `\"mac.txt\"` as q %}{% endif %}{{ q.f(`1`) }}",
+    "{% with a = `1` %}{% if `\"x\" in [\"x\"]` %}{% else %}{% block title %}T{% endblock %}{% endif %}{% endwith %}",
+    "{% autoescape `true` %}{% if `false` %}{% block b %}<b>{% endblock %}{% endif %}{% endautoescape %}|{{ self.b() }}",
+    "{% filter upper %}{% if `0` %}{% block b %}b{% endblock %}{% endif %}{% endfilter %}",
+    "{{ `1` if `false` else `2` }}{% if `false` %}{% if `true` %}{% block b %}B{% endblock %}{% endif %}{% endif %}",
 ];
 
 /// hand-written seeds; literal leaves are delimited by backticks
@@ -1279,8 +1443,8 @@ fn main() {
                     }
                 }
             }
-            for _ in 0..n / 3 {
-                let (src, spans) = gen_stmt(&mut rng);
+            for i in 0..n / 2 {
+                let (src, spans) = if i % 3 == 0 { gen_stmt(&mut rng) } else { gen_effect_stmt(&mut rng) };
                 if spans.len() > 40 || src.len() > 900 {
                     continue;
                 }
